@@ -19,9 +19,10 @@ Definition unit_eqb (a b : unit) : bool := true.
 Record codec_case := { cc_val : jv; cc_text : str }.
 
 Definition check_codec (c : codec_case) : bool :=
-  str_eqb (print (cc_val c)) (cc_text c) && opt_jv_eqb (parse (cc_text c)) (Some (cc_val c)).
+  wfb (cc_val c)   (* the generated value lies in the domain of the round-trip theorems *)
+  && str_eqb (print (cc_val c)) (cc_text c) && opt_jv_eqb (parse (cc_text c)) (Some (cc_val c)).
 
-Definition show_codec (c : codec_case) := (print (cc_val c), parse (cc_text c)).
+Definition show_codec (c : codec_case) := (wfb (cc_val c), print (cc_val c), parse (cc_text c)).
 
 (* -------------------------------------------------------------------------------------------- *)
 (** Part "loads": an arbitrary text and what json.loads(text, object_pairs_hook=OrderedDict) did with it
@@ -53,7 +54,8 @@ Definition check_ext (c : ext_case) : bool :=
   && str_eqb (to_str (ec_content c)) (ec_str c)
   && match ec_to_json c with
      | Ok t =>
-         res_eqb jv_eqb (from_json cv t) (Ok (ec_content c))
+         wfb (ec_content c)   (* a serialisable content lies in the domain of the round-trip theorems *)
+         && res_eqb jv_eqb (from_json cv t) (Ok (ec_content c))
          && res_eqb jv_eqb (from_runtime_repr cv (ec_content c)) (Ok (ec_content c))
          && res_eqb jv_eqb (save_load cv (fun b => Some b) (ec_content c)) (Ok (ec_content c))
          && forallb (fun t' => str_eqb t' (print (ec_content c))) (ec_reser c)
@@ -61,5 +63,5 @@ Definition check_ext (c : ext_case) : bool :=
      end.
 
 Definition show_ext (c : ext_case) :=
-  (to_json (fun _ => ec_valid c) (ec_content c), to_str (ec_content c),
+  (wfb (ec_content c), to_json (fun _ => ec_valid c) (ec_content c), to_str (ec_content c),
    match ec_to_json c with Ok t => parse t | Err _ => None end).
